@@ -45,6 +45,11 @@ pub fn try_one(prop: &str, part: &str, data: &[u8]) -> Result<(), String> {
         ("C01", "sampled") => exec(&g, &props::c01::decode, &props::c01::check, false),
         ("C02", "sampled") => exec(&g, &props::c02::decode, &props::c02::check, false),
         ("C11", "history") => exec(&g, &props::c11::decode_history, &props::c11::check, false),
+        ("C03", "tp") => exec(&g, &props::c03::decode_tp, &props::c03::check_tp, false),
+        ("C05", "points") => exec(&g, &props::c05::decode_points, &props::c05::check_points, false),
+        ("C07", "mix") => exec(&g, &props::c07::decode_mix, &props::c07::check_mix, false),
+        ("C13", "sampled") => exec(&g, &props::c13::decode, &props::c13::check, false),
+        ("C14", "serde") => exec(&g, &props::c14::decode_serde, &props::c14::check_serde, true),
         _ => Err(format!("no fuzz glue for {prop}/{part}")),
     }
 }
